@@ -285,6 +285,56 @@ pub fn run() -> i32 {
     st.sample(json!({"section": "c'", "m_values_KiB": ms, "t_values": ts}));
     ctx.absorb("cost-fields", st);
 
+    // (c'') the two algorithms alternated back to back on ONE thread with identical costs (an
+    // old $argon2i$ record verified, then an $argon2id$ one, and the reverse; then a fresh
+    // string made and handed to libsodium): every order of <= 3 steps over {verify-i, verify-id, make-id}
+    {
+        let mut st = Stats::new();
+        for &(t, m) in &[(1u32, 8u32), (2, 16), (3, 32), (1, 64)] {
+            let (_, _, s_i) = sodium::argon2_raw(t, m, b"pw", &[9u8; 16], 32, 1, true);
+            let (_, _, s_id) = sodium::argon2_raw(t, m, b"pw", &[9u8; 16], 32, 2, true);
+            let mut orders: Vec<Vec<u8>> = vec![];
+            for a in 0..3u8 {
+                for b in 0..3u8 {
+                    orders.push(vec![a, b]);
+                    for c in 0..3u8 {
+                        orders.push(vec![a, b, c]);
+                    }
+                }
+            }
+            for order in orders {
+                let (si, sid, o2) = (s_i.clone(), s_id.clone(), order.clone());
+                let res = std::thread::spawn(move || {
+                    guarded(AssertUnwindSafe(|| {
+                        let mut bad: Option<String> = None;
+                        for (k, step) in o2.iter().enumerate() {
+                            let ok = match step {
+                                0 => crypto_pwhash_str_verify(&si, b"pw").is_ok() && crypto_pwhash_str_verify(&si, b"px").is_err() && PwHash::<Vec<u8>, Vec<u8>>::from_string(&si).map(|x| x.verify(&b"pw".to_vec()).is_ok()).unwrap_or(false),
+                                1 => crypto_pwhash_str_verify(&sid, b"pw").is_ok() && crypto_pwhash_str_verify(&sid, b"px").is_err() && PwHash::<Vec<u8>, Vec<u8>>::from_string(&sid).map(|x| x.verify(&b"pw".to_vec()).is_ok()).unwrap_or(false),
+                                _ => crypto_pwhash_str(b"pw", t as u64, m as usize * 1024).map(|s| sodium::pwhash_str_verify(&s, b"pw") && !sodium::pwhash_str_verify(&s, b"px")).unwrap_or(false),
+                            };
+                            if !ok && bad.is_none() {
+                                bad = Some(format!("step {} ({})", k + 1, ["verify a libsodium $argon2i$ string", "verify a libsodium $argon2id$ string", "make a string and let libsodium verify it"][*step as usize]));
+                            }
+                        }
+                        bad
+                    }))
+                })
+                .join()
+                .unwrap_or(Err("thread died".into()));
+                let bad = match res {
+                    Err(p) => Some(format!("panicked: {}", p)),
+                    Ok(b) => b,
+                };
+                st.eval(&("alternate", t, m, &order), true, if bad.is_none() { "alternating-algorithms-ok" } else { "alternating-algorithms-bad" });
+                if let Some(b) = bad {
+                    fail(&mut st, "alternating-algorithms", "wrong", format!("t={} m={} KiB, steps {:?} on one thread: {} gave the wrong answer", t, m, order, b), json!({"sec": "none"}));
+                }
+            }
+        }
+        ctx.absorb("alternating-algorithms", st);
+    }
+
     // (d) needs_rehash
     let mut st = Stats::new();
     // multi-digit costs and costs that are decimal prefixes of one another (1/10/12/100, 8/80/81/800)
